@@ -1,6 +1,7 @@
 """C17 (calendar intervals), C16 (time ticks), C14 (nice, linear + time), C15 (time scale), C18 (time zone)."""
 import json, os, subprocess, sys
 from datetime import datetime, timedelta
+import common
 from common import Report, build_and_audit, drive, fields, rng_for, leanchecker, REPO, fr, VERIF, PY, Infra, time_limit
 
 sys.path.insert(0, REPO)
@@ -102,7 +103,7 @@ def body_c17(tier, seed, rep, only_prop=False, scale=1):
     # exhaustively every day 1900-2200 (at midnight and at a random time of day), every unit
     day0, day1 = LO // DAY, HI // DAY
     stride = 1
-    for dn in range(day0, day1 + 1, stride):
+    for dn in (range(day0, day1 + 1, stride) if common.exhaustive_here() else ()):
         tod = rng.choice([0, 0, rng.randint(0, DAY - 1), DAY - 1, 43200000])
         t = dn * DAY + tod
         if quick_skip(tier, dn):
@@ -114,13 +115,13 @@ def body_c17(tier, seed, rep, only_prop=False, scale=1):
             meta = {"kind": "cal", "unit": u, "t": t, "k": k}
             guarded(lambda: run_cal_case(d3, u, t, k), meta)
     # month ends / leap days / year ends with all units, more offsets
-    for t in interesting_instants(rng, (3000 if tier == "quick" else 60000) * scale):
+    for t in interesting_instants(rng, common.count(tier, 3000, 60000) * scale):
         for u in UNITS:
             k = rng.randint(0, 400)
             meta = {"kind": "cal", "unit": u, "t": t, "k": k}
             guarded(lambda: run_cal_case(d3, u, t, k), meta)
     # ranges (never more than ~3000 unit steps: the real range walks one unit at a time)
-    for _ in range((2500 if tier == "quick" else 40000) * scale):
+    for _ in range(common.count(tier, 2500, 40000) * scale):
         u = rng.choice(UNITS)
         t0 = interesting_instants(rng, 1)[0]
         length = {"second": 1000, "minute": 60000, "hour": 3600000, "day": DAY, "week": 7 * DAY, "month": 30 * DAY, "year": 365 * DAY}[u]
@@ -214,7 +215,7 @@ def body_c16(tier, seed, rep, only_prop=False, scale=1):
     from labella.scale import TimeScale
     rng = rng_for(seed, "c16")
     lines, metas = [], []
-    for _ in range((20000 if tier == "quick" else 200000) * scale):
+    for _ in range(common.count(tier, 20000, 200000) * scale):
         d0, d1 = gen_domain(rng)
         m = rng.choice([None, 10, 2, 3, 4, 5, 7, 12, 20, 33, 50])
         meta = {"kind": "tticks", "d0": d0, "d1": d1, "m": m}
@@ -226,7 +227,7 @@ def body_c16(tier, seed, rep, only_prop=False, scale=1):
         except Exception as e:
             rep.prop_fail.append(("ticks() raised %s: %s" % (type(e).__name__, e), {"case": meta}))
     # the ticks must be those of the domain the scale reports NOW, whatever happened before to this object and to its copies
-    for _ in range((1500 if tier == "quick" else 20000) * scale):
+    for _ in range(common.count(tier, 1500, 20000) * scale):
         ops = gen_time_history(rng)
         used = [o[2] for o in ops if o[0] == "ticks"]
         m = rng.choice(used) if used and rng.random() < 0.7 else rng.choice([None, 10, 5, 3])
@@ -263,7 +264,7 @@ def body_c15(tier, seed, rep, only_prop=False, scale=1):
     from labella.scale import TimeScale
     rng = rng_for(seed, "c15")
     lines, metas = [], []
-    for _ in range((4000 if tier == "quick" else 50000) * scale):
+    for _ in range(common.count(tier, 4000, 50000) * scale):
         d0, d1 = gen_domain(rng)
         r0 = rng.choice([0, 0, -50, 12.5, rng.uniform(-1e4, 1e4)])
         r1 = r0 + rng.choice([1, -1]) * rng.choice([100, 360, 1000, 0.5, rng.uniform(1, 1e5)])
@@ -290,7 +291,7 @@ def body_c15(tier, seed, rep, only_prop=False, scale=1):
                 rep.prop_fail.append(("time scale not strictly monotone", {"case": {"kind": "tscale-mono", "d0": d0, "d1": d1, "r0": r0, "r1": r1, "a": a, "b": b}}))
     # after any history of domain / range / nice / copy calls (also with a re-used list object) every scale is the affine map through
     # the domain and the range it REPORTS
-    for _ in range((1200 if tier == "quick" else 15000) * scale):
+    for _ in range(common.count(tier, 1200, 15000) * scale):
         ops = gen_time_history(rng)
         meta0 = {"kind": "tscale-history", "ops": ops}
         try:
